@@ -47,7 +47,7 @@ LAYOUTS = {
 }
 GENES = ("plain", "dup", "anti", "ignored")
 LOG2_PATTERN = (0.0, 0.4, -0.3)
-WEIGHT_PATTERN = (0.9, 0.6, 0.8)
+WEIGHT_PATTERN = (0.9, 0.5, 0.8)  # 0.5 = the non-default min_weight: a bin exactly at the cut-off survives
 
 
 def gene_name(pattern, ci, i):
